@@ -6,7 +6,7 @@ tmp=/dev/shm/ingest_$$; mkdir -p $tmp
 for s in .diff _demo.py _notes.md; do [ -f $out/m$k$s ] && cp $out/m$k$s $tmp/$new$s; done
 v=$(/verif/tools/verify_mutant.sh $tmp $new)
 echo "$v"
-if echo "$v" | grep -q "demo_unmodified_exit=0 tests='69 passed.*demo_mutant_exit=1"; then
+if echo "$v" | grep -q "demo_unmodified_exit=0 tests='69 passed.*demo_mutant_exit=1$"; then
   /verif/tools/keep_mutant.py $prop $tmp $new "$needs"
 else
   echo "NOT CONFIRMED: $prop $k"
